@@ -144,8 +144,16 @@ def run_unit(ctx, unit):
         cases.append(("single/stderr", core.Case(["--on-error", "stderr"] + pargs, sdata)))
         if len(noisy) < 5000 and (unit["wsseed"] & 3) == 0:
             # the same noisy stream given as a file: same rows, a report per region, failure under panic
-            cases.append(("file/stderr", core.Case(["@D@/noisy.json", "--on-error", "stderr"] + pargs, b"", files=[("noisy.json", noisy)])))
-            cases.append(("file/panic", core.Case(["@D@/noisy.json", "--on-error", "panic"] + pargs, b"", files=[("noisy.json", noisy)])))
+            # the file's name shows up in every report: short, long, non-ASCII; sometimes the file is reached through a
+            # (nested) directory argument instead of being named itself
+            fname = ("noisy.json", "\u00e9" * 30 + ".json", "dir with blanks/" + "x" * 70 + ".json", "\u65e5\u672c\u8a9e-" * 7 + "n.json")[(unit["wsseed"] >> 2) & 3]
+            target = "@D@/" + fname
+            if (unit["wsseed"] >> 5) & 1:
+                fname = "nd/sub/" + fname.replace("/", "_")
+                target = "@D@/nd"
+            cases.append(("file/stderr", core.Case([target, "--on-error", "stderr"] + pargs, b"", files=[(fname, noisy)])))
+            cases.append(("file/panic", core.Case([target, "--on-error", "panic"] + pargs, b"", files=[(fname, noisy)])))
+            cases.append(("file/stdout", core.Case([target, "--on-error", "stdout"] + pargs, b"", files=[(fname, noisy)])))
         if (unit["wsseed"] & 7) == 1:
             # a clean file that starts with a byte-order mark (or other bytes an editor may put first): one more malformed region
             hd = (b"\xef\xbb\xbf", b"\xef\xbb\xbf\n", b"\xff\xfe", b"\xef\xbb\xbf ")[(unit["wsseed"] >> 3) & 3]
@@ -229,6 +237,10 @@ def run_unit(ctx, unit):
         el = [l for l in o.stderr.split(b"\n") if l]
         if o.result != "ok" or o.stdout != base.stdout or len(el) < len(regions) or any(not l.startswith(b"error:") for l in el):
             return bad("file-stderr", "the noisy stream given as a file: rows differ from the clean stream or a region is not reported", "file/stderr")
+        o = res["file/stdout"]
+        errs_f, rest_f = split_errors(o.stdout)
+        if o.result != "ok" or rest_f != base.stdout or len(errs_f) < len(regions) or o.stderr:
+            return bad("file-stdout", "the noisy stream given as a file: rows differ or a region is not reported under --on-error=stdout", "file/stdout")
         o = res["file/panic"]
         if o.result != "err" or (streaming and o.stdout != res["prefix"].stdout):
             return bad("file-panic", "the noisy stream given as a file: --on-error=panic did not fail at the first malformed byte", "file/panic")
